@@ -176,7 +176,8 @@ def handle (op : String) (j : Json) : Except String Json := do
     let sp := specMask ign ivs
     let sAt := pts.map (fun x => (vals.getD x.1 []).getD x.2.toNat 0)
     let sBool := ((List.range n).map (fun c => boolIndex (arrays.getD c []) (specMaskChrom isz sp c))).flatten
-    pure (reply (optJ id m) (some (mk arrays sAt sBool)))
+    let okPts := pts.all (fun x => decide (0 ≤ x.2) && decide (x.2.toNat < sizes.getD x.1 0))
+    pure (reply (optJ id m) (some (if okPts then mk arrays sAt sBool else raised)))
   | "binned" =>
     let pts ← getPairs j "pts"
     let b ← getNat j "bin"
@@ -192,7 +193,9 @@ def handle (op : String) (j : Json) : Except String Json := do
     let f := fun (l : List (Nat × Int)) => Json.mkObj [("map", intListList (l.map (fun x => [(x.1 : Int), x.2])))]
     let p' := pts.map (fun x => (encodeIdx ign x.1, x.2.toNat))
     let ps := pts.map (fun x => (rankOf ign x.1, x.2.toNat))
-    pure (reply (optJ f (mapLocs false isz (maskData ign ivs) p')) (some (f (specMapLocs (specMask ign ivs) ps))))
+    if pts.any (fun x => decide (x.2 < 0)) then pure (reply raised (some raised)) else
+    let okPts := pts.all (fun x => decide (x.2.toNat < sizes.getD x.1 0))
+    pure (reply (optJ f (mapLocs false isz (maskData ign ivs) p')) (some (if okPts then f (specMapLocs (specMask ign ivs) ps) else raised)))
   | "gjaccard" =>
     let sets ← (← getArr j "sets").mapM (fun v => do (← v.getArr?).toList.mapM parseIv)
     let masks := Base.omap (fun s => maskGlobal isz (maskData ign s)) sets
